@@ -15,7 +15,7 @@ TEXT = {
             "§7 C03"),
     "C04": ("Lean theorems C04_parity_spec / C04_parity_eq (the encoder's chirality flip is exactly the parity of the permutation between the written neighbour order and the decoder's order, for every graph), C04_inversions_parity (inversion count = transposition parity), C04_ring_marks / C04_chain_marks (every '/' '\\' mark is carried by the emitted symbol and read back on the right end; decide over the regenerated ring table). C04_end_to_end (string level): after encoder and decoder every atom's written neighbour order is the decoder order of its input row and its tag is flipped exactly when that permutation is odd.",
             "§7 C04"),
-    "C05": ("Lean theorems: C05_greedy_valid/_total, C05_flip_valid, C05_bfs_path_alternating, C05_augment_sound_partial (sound whenever every augmenting path found is simple), C05_bipartite_sound (sound on bipartite graphs, every tape), C05_kekulize_sound (exact result of kekulize given a perfect matching: sigma skeleton unchanged, one double bond per kept atom), C05_prune_standard_kinds (28 atom kinds, decide); unconditional soundness is FALSE (C05_no_blossom_witness / C05_soundness_false, finding F9). Tie: find_perfect_matching vs the model on EVERY subcubic graph <= 6/7 vertices + random graphs to 30 vertices with the recorded tape, brute force; aromatic systems in many atom orders judged per spelling by the independent reader. Completeness and order independence are bounded search by design.",
+    "C05": ("Lean theorems: C05_greedy_valid/_total, C05_flip_valid, C05_bfs_path_alternating, C05_augment_sound_partial (sound whenever every augmenting path found is simple), C05_bipartite_sound and C05_bipartite_complete / C05_bipartite_decides (on bipartite graphs - all rings even - the routine returns a perfect matching exactly when one exists, for every legal tape; via a constructive Berge walk and completeness of the BFS), C05_kekulize_complete_bipartite, C05_kekulize_sound (exact result of kekulize given a perfect matching: sigma skeleton unchanged, one double bond per kept atom), C05_prune_standard_kinds (28 atom kinds, decide); unconditional soundness is FALSE (C05_no_blossom_witness / C05_soundness_false, finding F9). Tie: find_perfect_matching vs the model on EVERY subcubic graph <= 6/7 vertices + random graphs to 30 vertices with the recorded tape, brute force; aromatic systems in many atom orders judged per spelling by the independent reader. Completeness and order independence are bounded search by design.",
             "§7 C05"),
     "C06": ("Lean theorems C06_strict_iff / C06_strict_raises_iff (strict rejection <=> some atom's bond sum + explicit H exceeds its capacity, for every parse/kekulize result), C06_nonstrict_table_free (the non-strict result does not depend on the table), C06_strict_success_same_as_nonstrict, C06_capacity_key. Tie: correspondence of strict / non-strict encoding under changing tables on at/below/above-capacity molecules, sibling pairs differing only in explicit H, two-fragment combinations; independent bond count on the real code.",
             "§7 C06"),
